@@ -334,8 +334,11 @@ func runC08(c *eng.Ctx) {
 				uses = isRep(x.Val) // named result spilled because of the deferred unlock
 			}
 			if uses {
-				g, _ := eng.GuardedBy(fn, in, eng.BoolEdges(fn, eng.Load(rep, nil), true))
-				ok = g
+				// "gone, look the position up again": the segment was replaced by the cleaner — or deleted by retention, which
+				// readers recover from in the same way
+				gone := append(eng.BoolEdges(fn, eng.Load(rep, nil), true), eng.BoolEdges(fn, eng.LoadNamed("deleted", nil), true)...)
+				g, _ := eng.GuardedBy(fn, in, gone)
+				ok = g && len(eng.BoolEdges(fn, eng.Load(rep, nil), true)) > 0
 			}
 		})
 		c.Check(ok, "reads of a replaced segment say so", p.Pos(fn.Pos()), "ErrSegmentReplaced is returned when s.replaced", "ReadAt does not report ErrSegmentReplaced for a replaced segment")
